@@ -64,15 +64,16 @@ class RuleResult:
         return ok
 
     def finding(self, func_or_where, node, message: str, construct: Optional[str] = None,
-                props: Optional[Sequence[str]] = None, path: Optional[List[str]] = None, module: Optional[Module] = None):
+                props: Optional[Sequence[str]] = None, path: Optional[List[str]] = None, module: Optional[Module] = None,
+                file: Optional[str] = None, line: Optional[int] = None):
         if isinstance(func_or_where, FuncInfo):
             where = func_or_where.qual
             mod = func_or_where.module
         else:
             where = str(func_or_where)
             mod = module
-        file = mod.relpath if mod is not None else ''
-        line = getattr(node, 'lineno', 0) if node is not None else 0
+        file = file if file is not None else (mod.relpath if mod is not None else '')
+        line = line if line is not None else (getattr(node, 'lineno', 0) if node is not None else 0)
         text = construct if construct is not None else (norm(node) if node is not None else '')
         if len(text) > 300:
             text = text[:300] + '...'
